@@ -7,12 +7,14 @@ of dyadic rationals, outputs compared with the model run on Q inside Coq (vm_com
 maps checked against the theorem statements; the REAL GenericSolver on scripted monotone problems under every algorithm x prediction
 policy x stiffness type x rounding mode, converged states compared pairwise with the proved bound (search only)."""
 import math, re
+from concurrent.futures import ThreadPoolExecutor
 from fractions import Fraction as Fr
 from vlib import guarded_main
 
 ALGOS = ["Cast3M", "Secant", "AlternateSecant", "AlternateDelta2", "Alternate2Delta", "CrossedSecant", "CrossedDelta2", "Crossed2Delta",
          "Crossed2Deltabis", "Steffensen", "IronsTuck", "UAnderson", "FAnderson"]
-MODELLED = ["Secant", "AlternateSecant", "CrossedSecant", "IronsTuck", "Steffensen", "Cast3M", "UAnderson", "FAnderson"]
+NEW5 = ["AlternateDelta2", "Alternate2Delta", "CrossedDelta2", "Crossed2Delta", "Crossed2Deltabis"]
+MODELLED = ["Secant", "AlternateSecant", "CrossedSecant", "IronsTuck", "Steffensen", "Cast3M"] + NEW5 + ["UAnderson", "FAnderson"]
 FILES = {"Cast3M": "Castem"}
 REPO_SRC = ["mtest/src/GenericSolver.cxx", "mtest/src/AccelerationAlgorithm.cxx", "mtest/src/AccelerationAlgorithmFactory.cxx",
             "mtest/src/RoundingMode.cxx", "mtest/src/StudyCurrentState.cxx", "mtest/src/SolverOptions.cxx", "mtest/src/Solver.cxx",
@@ -21,7 +23,13 @@ LIBS = ["-lTFELMTest", "-lTFELMathParser", "-lTFELMathKriging", "-lTFELMath", "-
         "-lTFELSystem", "-lMFrontLogStream"]
 EPS = Fr(1, 2 ** 52)
 # default triggers / periods of the classes (initialize()), also given explicitly through setParameter in part of the cases
-DEFAULT_TRIGGER = {"Secant": 3, "AlternateSecant": 2, "CrossedSecant": 2, "IronsTuck": 2, "Steffensen": 3, "Cast3M": 4}
+DEFAULT_TRIGGER = {"Secant": 3, "AlternateSecant": 2, "CrossedSecant": 2, "IronsTuck": 2, "Steffensen": 3, "Cast3M": 4,
+                   "AlternateDelta2": 3, "Alternate2Delta": 2, "CrossedDelta2": 3, "Crossed2Delta": 2, "Crossed2Deltabis": 2}
+THR99 = Fr(0.99)                  # the double 0.99 of the 2Delta variants
+GS_EPS2 = (100 * EPS) ** 2        # eps^2 of CovarianceMatrix::GSFactorD (eps = 100*epsilon)
+NEW5_STEP = {"AlternateDelta2": ("altdelta2_step QF %(trig)d %(thr)s", "st5_init"), "Alternate2Delta": ("alt2delta_step QF %(trig)d %(thr)s %(t99)s", "st5_init"),
+             "CrossedDelta2": ("crosseddelta2_step QF %(trig)d %(thr)s", "st5_init"), "Crossed2Delta": ("crossed2delta_step QF %(trig)d %(thr)s %(t99)s", "st5_init"),
+             "Crossed2Deltabis": ("crossed2deltabis_step QF true %(trig)d %(thr)s %(t99)s", "st6_init")}
 
 HEADER = """From Coq Require Import List ZArith QArith.
 From C49 Require Import C49Model.
@@ -50,31 +58,40 @@ def hexf(x):
     return float(x).hex()
 
 
-def model_term(algo, params, dim, eeps, seps, script):
-    """Coq term computing the outputs of the model on a script of (u1, du, r)"""
+def model_term(algo, params, dim, eeps, seps, script, iters=None, thr99=THR99, gs=True):
+    """Coq term computing the outputs of the model on a script of (u1, du, r); iters: the iteration number of every entry (several
+    resolutions in a row), default 1, 2, 3, ..."""
     it_eps = 100 * eeps * EPS
     sa_eps = 100 * seps * EPS
     trig = params.get("AccelerationTrigger", DEFAULT_TRIGGER.get(algo, 0))
+    iters = iters or list(range(1, len(script) + 1))
+
+    def runner(stepfun, init, entries):
+        data = "[" + "; ".join("(%d%%nat, %s)" % (it, e) for it, e in zip(iters, entries)) + "]"
+        return "pv (run_it (fun st it (x : I2) => %s st it (fst x) (snd x)) (%s QF %d) %s)" % (stepfun, init, dim, data)
     if algo == "Secant":
-        data = "[" + "; ".join("(%s, %s)" % (qv(u), qv(r)) for u, du, r in script) + "]"
-        return "pv (run (fun st it (x : I2) => secant_step QF %d %s st it (fst x) (snd x)) (st2_init QF %d) 1%%nat %s)" % (trig, q(sa_eps), dim, data)
+        return runner("secant_step QF %d %s" % (trig, q(sa_eps)), "st2_init", ["(%s, %s)" % (qv(u), qv(r)) for u, du, r in script])
     if algo in ("AlternateSecant", "CrossedSecant", "IronsTuck"):
         f = {"AlternateSecant": "altsecant_step", "CrossedSecant": "crossedsecant_step", "IronsTuck": "ironstuck_step"}[algo]
-        data = "[" + "; ".join("(%s, %s)" % (qv(u), qv(du)) for u, du, r in script) + "]"
-        return "pv (run (fun st it (x : I2) => %s QF %d %s st it (fst x) (snd x)) (st2_init QF %d) 1%%nat %s)" % (f, trig, q(it_eps * it_eps), dim, data)
+        return runner("%s QF %d %s" % (f, trig, q(it_eps * it_eps)), "st2_init", ["(%s, %s)" % (qv(u), qv(du)) for u, du, r in script])
+    if algo in NEW5:
+        f, init = NEW5_STEP[algo]
+        return runner(f % {"trig": trig, "thr": q(it_eps * it_eps), "t99": q(thr99)}, init, ["(%s, %s)" % (qv(u), qv(du)) for u, du, r in script])
     if algo == "Steffensen":
-        data = "[" + "; ".join(qv(u) for u, du, r in script) + "]"
-        return "pv (run (fun st it (x : list Q) => steffensen_step QF %d %s st it x) (st3_init QF %d) 1%%nat %s)" % (trig, q(it_eps), dim, data)
+        data = "[" + "; ".join("(%d%%nat, %s)" % (it, qv(u)) for it, (u, du, r) in zip(iters, script)) + "]"
+        return "pv (run_it (fun st it (x : list Q) => steffensen_step QF %d %s st it x) (st3_init QF %d) %s)" % (trig, q(it_eps), dim, data)
     if algo == "Cast3M":
         per = params.get("AccelerationPeriod", 2)
-        data = "[" + "; ".join("(%s, %s)" % (qv(u), qv(r)) for u, du, r in script) + "]"
-        return "pv (run (fun st it (x : I2) => castem_step QF %d %d %s st it (fst x) (snd x)) (st3_init QF %d) 1%%nat %s)" % (trig, per, q(sa_eps * sa_eps), dim, data)
+        return runner("castem_step QF %d %d %s" % (trig, per, q(sa_eps * sa_eps)), "st3_init", ["(%s, %s)" % (qv(u), qv(r)) for u, du, r in script])
     nmax, almax = params.get("MethodOrder", 4), params.get("AccelerationPeriod", 2)
+    # gs: the weights as the code computes them (Gram-Schmidt, dropped directions); else C^-1 1/(1^T C^-1 1) by Gauss elimination
     if algo == "UAnderson":
         data = "[" + "; ".join("(%s, %s)" % (qv(u), qv(du)) for u, du, r in script) + "]"
-        return "po (run_opt (fun st it (x : I2) => uanderson_step QF %d %d st it (fst x) (snd x)) (ast_init QF %d %d) 1%%nat %s)" % (nmax, almax, almax, dim, data)
-    data = "[" + "; ".join("(%s, %s)" % (qv(u), qv(r)) for u, du, r in script) + "]"
-    return "po (run_opt (fun st it (x : I2) => fanderson_step QF %d %d st it (fst x) (snd x)) (ast_init QF %d %d) 1%%nat %s)" % (nmax, almax, almax, dim, data)
+        f = ("uanderson_gs_step QF %s" % q(GS_EPS2)) if gs else "uanderson_step QF"
+    else:
+        data = "[" + "; ".join("(%s, %s)" % (qv(u), qv(r)) for u, du, r in script) + "]"
+        f = ("fanderson_gs_step QF %s" % q(GS_EPS2)) if gs else "fanderson_step QF"
+    return "po (run_opt (fun st it (x : I2) => %s %d %d st it (fst x) (snd x)) (ast_init QF %d %d) 1%%nat %s)" % (f, nmax, almax, almax, dim, data)
 
 
 def castem_near_tie(script, seps):
@@ -128,6 +145,41 @@ def gen_script(rng, algo, dim, niter, kind):
                 u = vec()
         if kind == "arith" and len(script) >= 2 and rng.random() < 0.6:   # arithmetic progression of G-values (Steffensen: i1 = i2)
             u = [2 * a - b for a, b in zip(script[-1][0], script[-2][0])]
+        if kind == "collinear2":      # du on a line: the 2x2 systems of the 2Delta variants are singular, or nearly (fallback branch)
+            k = Fr(rng.randint(-6, 6))
+            du = [b + k * d for b, d in zip(base, dirv)] if rng.random() < 0.7 else du
+        script.append((u, du, r))
+    return script
+
+
+def gen_deficient(rng, algo, dim, niter, family):
+    """Anderson scripts whose stored D fields are linearly dependent, chosen so that every floating-point operation of GSFactorD is exact:
+    rank1: every D field is +-2^m times one small-integer vector (all but the newest direction dropped);
+    axes (FAnderson): D fields +-2^m e_a along the coordinate axes, with repeats (a repeated axis is dropped)."""
+    base = [Fr(rng.randint(-3, 3)) for _ in range(dim)]
+    if all(b == 0 for b in base):
+        base[0] = Fr(1)
+
+    def field():
+        sgn, m = rng.choice([-1, 1]), rng.randint(-3, 3)
+        if family == "axes":
+            a = rng.randrange(dim)
+            return [Fr(sgn) * Fr(2) ** m if i == a else Fr(0) for i in range(dim)]
+        return [Fr(sgn) * Fr(2) ** m * b for b in base]
+    val = lambda: Fr(rng.randint(-40, 40), 8)
+    script, prev = [], None
+    for it in range(niter):
+        D = field()
+        if algo == "FAnderson":
+            u, du, r = [val() for _ in range(dim)], [val() for _ in range(dim)], D
+        else:
+            # UAnderson: D_1 = -du_1; D_n = (previous output) - u1_n, and with every older direction dropped the previous output is u1_{n-1}
+            if prev is None:
+                u, du = [val() for _ in range(dim)], [-x for x in D]
+            else:
+                u, du = [a - x for a, x in zip(prev, D)], [val() for _ in range(dim)]
+            r = [val() for _ in range(dim)]
+            prev = u
         script.append((u, du, r))
     return script
 
@@ -151,51 +203,106 @@ def main(c):
               "files not listed in the driver's repo_sources (LUSolve is header-only; MFrontLogStream, tfel::raise, vector/matrix support) come from /repo/include and the "
               "libraries built in /repo/_build",
               "the harness computes the thresholds handed to the models (100*eps*2^-52 and its square) and filters Cast3M scripts whose branch conditions are near ties",
-              "Cast3M is modelled in its square-root-free algebraic form; the Anderson weights by their meaning C^-1 1/(1^T C^-1 1) (Gauss elimination), not by GSFactorD")
+              "the Anderson weights of the code (GSFactorD on the packed Gram matrix) are modelled on the vectors themselves (same numbers in exact arithmetic)")
     rng = c.rng
+    # ================================================================ theorems: in the background (2 coqc at a time + the evaluations of the main thread)
+    r0 = c.coq(["C49Model.v"], timeout=900)
+    if not r0.ok:
+        c.coq_failures(r0)
+        return
+    results = [r0]
+
+    def prove():
+        r1 = c.coq(["C49Spec.v", "C49Proofs.v"], 900)
+        results.append(r1)
+        if not r1.ok:
+            return
+        with ThreadPoolExecutor(max_workers=2) as pool:
+            fa = pool.submit(c.coq, ["Properties_C49.v"], 900)
+            fb = pool.submit(c.coq, ["C49ProofsB.v", "Properties_C49_b.v"], 900)
+            results.extend([fa.result(), fb.result()])
+    bg = ThreadPoolExecutor(max_workers=1)
+    fut = bg.submit(prove)
+    try:
+        stages(c, exe, rng)
+    finally:
+        fut.result()
+        bg.shutdown()
+    c.coverage["obligations"] = max(sum(len(r.theorems) for r in results), NTHEOREMS)
+    c.coverage["discharged"] = sum(len(r.discharged) for r in results)
+    c.coverage["checker_cmd"] = ("coqc -Q coq/lib VLib -R <scratch> C49 <files: C49Model.v C49Spec.v C49Proofs.v C49ProofsB.v Properties_C49.v Properties_C49_b.v> "
+                                 "(Coq 8.16.1, full .vo compilation)")
+    for r in results:
+        if not r.ok:
+            c.coq_failures(r)
+
+
+NTHEOREMS = 38      # Properties_C49.v 19 + Properties_C49_b.v 19
+
+
+def stages(c, exe, rng):
     # ================================================================ (1) scripted sequences: real classes vs model on Q
     ncase = c.pick(22, 150)
-    cases = []
+    cases = []      # (algo, params, dim, eeps, seps, kind, script, iters)
     for algo in MODELLED:
-        kinds = ["random", "random", "repeat", "tiny"]
+        kinds = ["random", "random", "repeat", "tiny", "multi"]
         if algo == "Cast3M":
-            kinds = ["random", "random", "collinear", "collinear", "repeat", "tiny"]
+            kinds = ["random", "random", "collinear", "collinear", "repeat", "tiny", "multi"]
         if algo == "Steffensen":
-            kinds = ["random", "arith", "arith", "repeat", "tiny"]
+            kinds = ["random", "arith", "arith", "repeat", "tiny", "multi"]
+        if algo in NEW5:
+            kinds = ["random", "random", "collinear2", "repeat", "tiny", "multi", "multi"]
         if algo in ("UAnderson", "FAnderson"):
-            kinds = ["random"]
+            kinds = ["random", "random", "rank1", "axes" if algo == "FAnderson" else "rank1"]
         k = 0
         while k < ncase:
             kind = kinds[k % len(kinds)]
             params = {}
+            iters = None
             if algo in ("UAnderson", "FAnderson"):
                 params = {"MethodOrder": rng.choice([2, 2, 3, 4]), "AccelerationPeriod": rng.choice([1, 2, 3])}
-                dim = params["MethodOrder"] + rng.randint(1, 2)    # Gram matrices non singular (rank-deficient path not modelled)
                 niter = rng.randint(4, 9)
-                if algo == "UAnderson":
-                    # the previous (accelerated) output is fed back into the D fields: in exact arithmetic the size of the rationals is
-                    # multiplied by ~8 at every accelerated iteration; at most 4 of them
-                    niter = min(niter, 2 + 3 * params["AccelerationPeriod"])
+                if kind == "random":
+                    dim = params["MethodOrder"] + rng.randint(1, 2)    # Gram matrices non singular
+                    if algo == "UAnderson":
+                        # the previous (accelerated) output is fed back into the D fields: in exact arithmetic the size of the rationals is
+                        # multiplied by ~8 at every accelerated iteration; at most 4 of them
+                        niter = min(niter, 2 + 3 * params["AccelerationPeriod"])
+                    script = gen_script(rng, algo, dim, niter, kind)
+                else:
+                    dim = rng.randint(1, 3) if kind == "rank1" else rng.randint(2, 3)
+                    script = gen_deficient(rng, algo, dim, niter, kind)
             else:
                 dim = rng.randint(1, 3)
                 niter = rng.randint(4, 8)
                 if rng.random() < 0.5:
-                    lo = 2 if algo in ("IronsTuck", "AlternateSecant", "CrossedSecant") else 3
+                    lo = 3 if algo in ("Secant", "Steffensen", "Cast3M") else 2
                     params["AccelerationTrigger"] = rng.randint(lo, 5)
                 if algo == "Cast3M" and rng.random() < 0.5:
                     params["AccelerationPeriod"] = rng.randint(1, 3)
+                if kind == "multi":       # two or three resolutions in a row (the state of the algorithm is kept from one to the next)
+                    iters = []
+                    for _ in range(rng.randint(2, 3)):
+                        iters += list(range(1, rng.randint(2, 5) + 1))
+                    niter = len(iters)
+                script = gen_script(rng, algo, dim, niter, "random" if kind == "multi" else kind)
             eeps, seps = Fr(1, 2 ** rng.choice([3, 10, 20])), Fr(1, 2 ** rng.choice([3, 10, 20]))
-            script = gen_script(rng, algo, dim, niter, kind)
             if algo == "Cast3M" and castem_near_tie(script, seps):
                 continue
-            cases.append((algo, params, dim, eeps, seps, kind, script))
+            cases.append((algo, params, dim, eeps, seps, kind, script, iters))
             k += 1
-    lines, v = [], [HEADER]
-    for algo, params, dim, eeps, seps, kind, script in cases:
-        flat = " ".join(" ".join(hexf(x) for x in u + du + r) for u, du, r in script)
-        lines.append("SEQ %s %d %s %d %d %s %s %s" % (algo, len(params), " ".join("%s %d" % kv for kv in sorted(params.items())), dim,
-                                                      len(script), hexf(eeps), hexf(seps), flat))
-        v.append("Eval vm_compute in %s." % model_term(algo, params, dim, eeps, seps, script))
+    lines, v, vmap = [], [HEADER], []
+    for algo, params, dim, eeps, seps, kind, script, iters in cases:
+        head = "%s %d %s %d %d %s %s" % (algo, len(params), " ".join("%s %d" % kv for kv in sorted(params.items())), dim, len(script), hexf(eeps), hexf(seps))
+        if iters is None:
+            lines.append("SEQ " + head + " " + " ".join(" ".join(hexf(x) for x in u + du + r) for u, du, r in script))
+        else:
+            lines.append("SEQI " + head + " " + " ".join("%d " % it + " ".join(hexf(x) for x in u + du + r) for it, (u, du, r) in zip(iters, script)))
+        v.append("Eval vm_compute in %s." % model_term(algo, params, dim, eeps, seps, script, iters))
+        vmap.append(len(v) - 2)
+        if "Anderson" in algo and kind == "random":
+            # full-rank sequences also through the weights defined by C^-1 1 / (1^T C^-1 1) (the model the optimality theorem is about)
+            v.append("Eval vm_compute in %s." % model_term(algo, params, dim, eeps, seps, script, iters, gs=False))
     rc, out, err = c.run([exe], input="\n".join(lines) + "\n", timeout=300)
     res = [l for l in out.splitlines() if l[:2] in ("O ", "X ", "E ") or l == "O"]
     if rc != 0 or len(res) != len(lines):
@@ -205,43 +312,63 @@ def main(c):
     if rc != 0:
         c.report("model-eval", "model evaluation failed: " + merr[-600:], {"stderr": merr[-3000:]}, False)
         return
-    mres = [parse_pairs(ch.split("\n     : ")[0].replace("%Z", "")) for ch in re.split(r"(?m)^\s{5}= ", mout)[1:]]
-    if len(mres) != len(cases):
-        c.report("model-eval", "model returned %d results for %d cases" % (len(mres), len(cases)), {"stdout": mout[-2000:]}, False)
+    mall = [parse_pairs(ch.split("\n     : ")[0].replace("%Z", "")) for ch in re.split(r"(?m)^\s{5}= ", mout)[1:]]
+    if len(mall) != len(v) - 1:
+        c.report("model-eval", "model returned %d results for %d queries" % (len(mall), len(v) - 1), {"stdout": mout[-2000:]}, False)
         return
-    nundef = 0
+    mres = [mall[i] for i in vmap]
+    nundef, nties, ndrop = 0, 0, 0
     accel = {a: 0 for a in MODELLED}
-    for (algo, params, dim, eeps, seps, kind, script), line, mm in zip(cases, res, mres):
-        key = "seq:%s:%s:%d:%s:%s:%s" % (algo, ",".join("%s=%d" % kv for kv in sorted(params.items())), dim, hexf(eeps), hexf(seps),
-                                        ";".join(",".join(str(x) for x in u + du + r) for u, du, r in script))
+
+    def differs(mm, real, script, dim, tol_rel):
+        mag = max([abs(x) for u, du, r in script for x in u + du + r] + [Fr(0)])
+        for it, (mo, ro) in enumerate(zip(mm, real)):
+            if mo is None:
+                return None
+            for i in range(dim):
+                if not (abs(ro[i] - float(mo[i])) <= tol_rel * float(mag + abs(mo[i]))):
+                    return (it + 1, i, ro[i], float(mo[i]))
+        return None
+    for ci, ((algo, params, dim, eeps, seps, kind, script, iters), line, mm) in enumerate(zip(cases, res, mres)):
+        key = "seq:%s:%s:%d:%s:%s:%s:%s" % (algo, ",".join("%s=%d" % kv for kv in sorted(params.items())), dim, hexf(eeps), hexf(seps),
+                                           ",".join(map(str, iters)) if iters else "-", ";".join(",".join(str(x) for x in u + du + r) for u, du, r in script))
         if not line.startswith("O"):
             c.count(1, key, False)
             c.report(key, "%s%r raised on the script %r: %s" % (algo, params, script, line), {"algo": algo, "params": params, "script": repr(script), "real": line}, True)
             continue
         real = [float.fromhex(x) if "x" in x else float(x) for x in line.split()[1:]]
         real = [real[i * dim:(i + 1) * dim] for i in range(len(script))]
-        mag = max([abs(x) for u, du, r in script for x in u + du + r] + [Fr(0)])
         tol_rel = 1e-7 if "Anderson" in algo else 1e-9
-        bad = None
         nontrivial = False
-        for it, (mo, ro) in enumerate(zip(mm, real)):
-            if mo is None:       # weights undefined in the model (singular Gram matrix): the degenerate path of the C++ is not modelled
+        for it, mo in enumerate(mm):
+            if mo is None:       # weights undefined in the model (0/0: every direction dropped)
                 nundef += 1
                 break
             if any(a != b for a, b in zip(mo, script[it][0])):
                 nontrivial = True
                 accel[algo] += 1
-            for i in range(dim):
-                tol = tol_rel * float(mag + abs(mo[i]))
-                if not (abs(ro[i] - float(mo[i])) <= tol):
-                    bad = bad or (it + 1, i, ro[i], float(mo[i]))
+        if kind in ("rank1", "axes"):
+            ndrop += 1
+        bad = differs(mm, real, script, dim, tol_rel)
+        if bad and algo in NEW5 and algo != "AlternateDelta2" and algo != "CrossedDelta2":
+            # the branch test `ratio < 0.99` is evaluated in floating point by the code, exactly by the model: a script on which the model run
+            # with a slightly different threshold agrees with the code is a near tie and is not used (filter only, never an oracle)
+            alt = [model_term(algo, params, dim, eeps, seps, script, iters, thr99=THR99 + d) for d in (Fr(1, 10 ** 6), -Fr(1, 10 ** 6))]
+            rc2, o2, e2 = c.coq_eval(["C49Model.v"], HEADER + "".join("Eval vm_compute in %s.\n" % t for t in alt), timeout=300)
+            alts = [parse_pairs(ch.split("\n     : ")[0].replace("%Z", "")) for ch in re.split(r"(?m)^\s{5}= ", o2)[1:]] if rc2 == 0 else []
+            if any(differs(a, real, script, dim, tol_rel) is None for a in alts):
+                nties += 1
+                bad = None
+        if not bad and "Anderson" in algo and kind == "random":
+            bad = differs(mall[vmap[ci] + 1], real, script, dim, tol_rel)
         c.count(1, key, nontrivial)
         if bad and len(c.violations) < 4:
-            c.report(key, "%s (parameters %r, dimension %d, eeps=%s, seps=%s) fed the scripted iterates (u1, du, r) = %s returns at iteration %d component %d "
+            c.report(key, "%s (parameters %r, dimension %d, eeps=%s, seps=%s) fed the scripted iterates (u1, du, r) = %s%s returns at entry %d component %d "
                      "the value %r; the model of the acceleration formula (run on Q) gives %r" % (
-                         algo, params, dim, eeps, seps, [tuple([float(x) for x in w] for w in t) for t in script], bad[0], bad[1], bad[2], bad[3]),
+                         algo, params, dim, eeps, seps, [tuple([float(x) for x in w] for w in t) for t in script],
+                         " with iteration numbers %r" % iters if iters else "", bad[0], bad[1], bad[2], bad[3]),
                      {"algo": algo, "params": params, "dim": dim, "eeps": str(eeps), "seps": str(seps), "script": [[[str(x) for x in w] for w in t] for t in script],
-                      "real": real, "model": [[str(x) for x in mo] if mo is not None else None for mo in mm], "driver_line": line}, True)
+                      "iterations": iters, "real": real, "model": [[str(x) for x in mo] if mo is not None else None for mo in mm], "driver_line": line}, True)
     c.sample({"seq_case": {"algo": cases[0][0], "params": cases[0][1], "dim": cases[0][2], "script": [[[str(x) for x in w] for w in t] for t in cases[0][6]]},
               "real": res[0][:200], "model": [[str(x) for x in mo] for mo in mres[0] if mo is not None]})
     # ================================================================ (2) the theorem statements on the real classes (independent of the model)
@@ -269,8 +396,9 @@ def main(c):
         c.report("driver2", "driver failed on the closed-loop runs: " + err[-400:], {"stderr": err[-3000:]}, False)
         return
     # first iteration after which the iterate must be the solution of the scalar affine problem (from the theorems + default triggers);
-    # None: no exactness claimed (Anderson: rank-deficient Gram matrix in dimension 1; *Delta2/2Delta variants: not modelled)
-    EXACT_AT = {"Secant": 3, "AlternateSecant": 2, "CrossedSecant": 2, "IronsTuck": 2, "Steffensen": 3, "Cast3M": 4}
+    # None: no exactness claimed (Anderson: rank-deficient Gram matrix in dimension 1, theorem C49_anderson_gs_1d_drops_older)
+    EXACT_AT = {"Secant": 3, "AlternateSecant": 2, "CrossedSecant": 2, "IronsTuck": 2, "Steffensen": 3, "Cast3M": 4,
+                "AlternateDelta2": 3, "Alternate2Delta": 2, "CrossedDelta2": 3, "Crossed2Delta": 2, "Crossed2Deltabis": 2}
     nan_fixed = {}
     for (kind, algo, data), line in zip(meta, res2):
         vals = [float.fromhex(x) if "x" in x else float(x) for x in line.split()[1:]] if line[0] in "OL" else None
@@ -283,7 +411,10 @@ def main(c):
                 c.report(key, "%s raised in a closed loop on G(x) = %s + %s (x - %s): %s" % (algo, xs, cc, xs, line), {"line": line}, True)
             elif it is not None:
                 tol = 1e-11 * (1 + abs(float(xs)) + abs(float(x0)))
-                if not all(abs(x - float(xs)) <= tol for x in vals[it:]) and len(c.violations) < 6:
+                # CrossedDelta2 reaches the fixed point at that iteration, then leaves it: its correction is along rho_n - rho_{n-1}, which does not
+                # vanish at a fixed-point iterate (theorem C49_crosseddelta2_moves_fixed_point); GenericSolver accepts the iterate before that
+                tail = vals[it:it + 1] if algo == "CrossedDelta2" else vals[it:]
+                if not all(abs(x - float(xs)) <= tol for x in tail) and len(c.violations) < 6:
                     c.report(key, "%s in a closed loop x_{n+1} = accelerate(G(x_n)) on the scalar affine map G(x) = %s + %s (x - %s), residual r = %s (x - G x), from x0 = %s "
                              "gives the iterates %r: not at the fixed point %s from iteration %d on (exactness theorem of the model)" % (
                                  algo, xs, cc, xs, kk, x0, vals, xs, it), {"algo": algo, "xs": str(xs), "c": str(cc), "k": str(kk), "x0": str(x0), "iterates": vals}, True)
@@ -307,8 +438,9 @@ def main(c):
     nconf = c.pick(28, 60)
     RM = ["ToNearest", "UpWard", "DownWard", "TowardZero"]
     lines3, meta3 = [], []
-    for p in range(nprob):
-        N = rng.randint(1, 4)
+    for p in range(nprob + c.pick(2, 6)):
+        hard = p >= nprob       # strongly non-linear increment, constant (elastic) stiffness, few iterations allowed: steps that do not converge
+        N = rng.randint(1, 2) if hard else rng.randint(1, 4)
         A = [[Fr(0)] * N for _ in range(N)]
         for i in range(N):
             for j in range(i):
@@ -319,34 +451,55 @@ def main(c):
         b = [Fr(rng.randint(-16, 16), 4) for _ in range(N)]
         g = Fr(rng.choice([0, 0, 1, 4]), 2)
         eeps, seps = rng.choice([1e-6, 1e-9, 1e-11]), rng.choice([1e-4, 1e-7, 1e-10])
+        if hard:
+            b = [Fr(rng.choice([-1, 1]) * rng.randint(8, 24)) for _ in range(N)]
+            g = Fr(rng.choice([1, 2, 4]))
+            eeps, seps = rng.choice([1e-3, 1e-6]), rng.choice([1e-2, 1e-5])
         times = [Fr(0)]
         for _ in range(rng.randint(1, 3)):
             times.append(times[-1] + Fr(rng.randint(1, 4), 4))
-        confs = [("none", 0, 4, "ToNearest", Fr(0))]
-        for a in ALGOS:
-            confs.append((a, rng.randint(0, 5), rng.choice([1, 2, 3, 4, 5]), rng.choice(RM), Fr(rng.choice([0, 1, 2]), 4)))
-        while len(confs) < nconf:
-            confs.append((rng.choice(["none"] + ALGOS), rng.randint(0, 5), rng.choice([1, 2, 3, 4, 5]), rng.choice(RM), Fr(rng.choice([0, 1, 2]), 4)))
-        for (a, pp, kt, rm, s) in confs:
-            lines3.append("SOLVE %s 0 %d %s %s %s %s %d %d %s %s %s 200 12 %d %s" % (
-                a, N, " ".join(hexf(x) for row in A for x in row), " ".join(hexf(x) for x in b), hexf(g), hexf(s), pp, kt, rm, repr(eeps), repr(seps),
+        confs = [("none", 0, 4, "ToNearest", Fr(0), 200)]
+        if hard:
+            for kt in (1, 1, 1, 5, 2):
+                confs.append((rng.choice(["none", "none"] + ALGOS), rng.randint(0, 5), kt, "ToNearest", Fr(0), rng.choice([2, 3, 4, 6])))
+        else:
+            for a in ALGOS:
+                confs.append((a, rng.randint(0, 5), rng.choice([1, 2, 3, 4, 5]), rng.choice(RM), Fr(rng.choice([0, 1, 2]), 4), 200))
+            while len(confs) < nconf:
+                confs.append((rng.choice(["none"] + ALGOS), rng.randint(0, 5), rng.choice([1, 2, 3, 4, 5]), rng.choice(RM), Fr(rng.choice([0, 1, 2]), 4),
+                              rng.choice([200, 200, 200, 5, 8])))
+        for (a, pp, kt, rm, s, itmax) in confs:
+            lines3.append("SOLVE %s 0 %d %s %s %s %s %d %d %s %s %s %d 12 %d %s" % (
+                a, N, " ".join(hexf(x) for row in A for x in row), " ".join(hexf(x) for x in b), hexf(g), hexf(s), pp, kt, rm, repr(eeps), repr(seps), itmax,
                 len(times) - 1, " ".join(hexf(t) for t in times)))
-            meta3.append((p, N, A, b, g, m, eeps, seps, times, (a, pp, kt, rm, s)))
+            meta3.append((p, N, A, b, g, m, eeps, seps, times, (a, pp, kt, rm, s, itmax)))
     rc, out, err = c.run([exe], input="\n".join(lines3) + "\n", timeout=600)
     res3 = [l for l in out.splitlines() if l[:2] in ("R ", "X ", "E ")]
     if rc != 0 or len(res3) != len(lines3):
         c.report("driver3", "driver failed on the solver runs: " + err[-400:], {"stderr": err[-3000:]}, False)
         return
     byprob, failed = {}, {}
-    for mt, line in zip(meta3, res3):
+    nsub, nsmall = 0, 0
+    for mt, line, cmdline in zip(meta3, res3, lines3):
         t = line.split()
         conf = mt[9]
+        if t[0] == "R" and int(t[5]) > 0 and len(c.violations) < 6:
+            # independent statement of theorem C49_iterate_accepts_only_converged on the real solver: the hypothesis `accepted` of
+            # C49_accepted_states_close holds for every step that GenericSolver::execute keeps
+            c.report("solve:accepted-not-converged:%d:%s:%s:%r" % (mt[1], ",".join(str(x) for row in mt[2] for x in row), ",".join(str(x) for x in mt[3]), conf),
+                     "GenericSolver::execute on r(u,t) = A u + g u^3 - b t with A=%r b=%r g=%s, eeps=%r seps=%r, times %r, options (algorithm, prediction policy, stiffness "
+                     "type, rounding mode, s, iterMax) = %r with 12 sub-steps allowed: %s step(s) were accepted (postConvergence called, state updated) although the last "
+                     "verdict of checkConvergence was `not converged` (%s accepted steps in all)" % (
+                         [[float(x) for x in r] for r in mt[2]], [float(x) for x in mt[3]], mt[4], mt[6], mt[7], [float(x) for x in mt[8]], conf, t[5], t[4]),
+                     {"driver_command": cmdline, "driver_answer": line}, True)
         if t[0] != "R" or t[1] != "done":
             failed[conf[0]] = failed.get(conf[0], 0) + 1
             c.count(1, ("solve", mt[0], conf), False)
             continue
         u = [float.fromhex(x) for x in t[t.index("U") + 1:]]
         byprob.setdefault(mt[0], []).append((conf, u, int(t[2]), mt))
+        nsub += int(t[3]) > 0
+        nsmall += conf[5] < 200
         c.count(1, ("solve", mt[0], conf), int(t[2]) > len(mt[8]) - 1)
     npairs = 0
     for p, runs in sorted(byprob.items()):
@@ -360,7 +513,7 @@ def main(c):
             if not (hi[0] - lo[0] <= bound + slack) and len(c.violations) < 6:
                 c.report("solve:%d:%s:%s:%d:%r:%r" % (N, ",".join(str(x) for row in A for x in row), ",".join(str(x) for x in b), idx, lo[1], hi[1]),
                          "GenericSolver on r(u,t) = A u + g u^3 - b t with A=%r b=%r g=%s (strongly monotone, modulus >= %s), eeps=%r seps=%r, times %r: unknown %d after "
-                         "step %d converges to %r with options (algorithm, prediction policy, stiffness type, rounding mode, s) = %r and to %r with %r; difference %r > "
+                         "step %d converges to %r with options (algorithm, prediction policy, stiffness type, rounding mode, s, iterMax) = %r and to %r with %r; difference %r > "
                          "tolerance-derived bound %r" % ([[float(x) for x in r] for r in A], [float(x) for x in b], g, m, eeps, seps, [float(t) for t in times],
                                                          idx % N, idx // N + 1, lo[0], lo[1], hi[0], hi[1], hi[0] - lo[0], bound),
                          {"A": [[str(x) for x in r] for r in A], "b": [str(x) for x in b], "g": str(g), "eeps": eeps, "seps": seps, "times": [str(t) for t in times],
@@ -373,19 +526,68 @@ def main(c):
     if failed:
         c.notes.append("GenericSolver runs that did not converge (exception after sub-stepping; not a violation of C49, which speaks of converged results): %r of %d runs" % (
             failed, len(lines3)))
+    # ================================================================ (4) control flow of GenericSolver::iterate / execute: scripted verdicts
+    nver = c.pick(60, 600)
+    vcases, lines4, v4 = [], [], [HEADER + "Definition pe (r : list (Q * Q * nat * bool) * bool) := (map (fun e => (pq (fst (fst (fst e))), pq (snd (fst (fst e))), "
+                                  "snd (fst e), snd e)) (fst r), snd r).\n"]
+    for k in range(nver):
+        pp = rng.choice([0, 0, 1, 2, 3, 4, 5])
+        itmax, msub = rng.randint(1, 5), rng.randint(1, 5)
+        ti = Fr(rng.randint(0, 8), 4)
+        te = ti + Fr(rng.randint(1, 8), 4)
+        ptrue = rng.choice([0.0, 0.15, 0.3, 0.6])
+        verd = [1 if rng.random() < ptrue else 0 for _ in range(220)]
+        if k % 7 == 0:
+            verd = [0] * 220           # never converges: iterMax iterations, rejection, sub-steps, exception
+        vcases.append((pp, itmax, msub, ti, te, verd))
+        lines4.append("VERD %d %d %d %s %s %d %s" % (pp, itmax, msub, hexf(ti), hexf(te), len(verd), " ".join(map(str, verd))))
+        teps = (te - ti) * 100 * EPS
+        v4.append("Eval vm_compute in pe (execute_model 64 %d %d %s 0 %s %s %s %s [%s])." % (
+            msub, itmax, "true" if pp == 0 else "false", q(ti), q(te - ti), q(te), q(teps), "; ".join("true" if x else "false" for x in verd)))
+    rc, out, err = c.run([exe], input="\n".join(lines4) + "\n", timeout=300)
+    res4 = [l for l in out.splitlines() if l[:2] in ("V ", "X ", "E ")]
+    rc2, mout, merr = c.coq_eval(["C49Model.v"], "\n".join(v4) + "\n", timeout=900)
+    mblocks = re.split(r"(?m)^\s{5}= ", mout)[1:] if rc2 == 0 else []
+    if rc != 0 or len(res4) != len(lines4) or len(mblocks) != len(lines4):
+        c.report("driver4", "driver or model failed on the scripted-verdict runs (%d driver answers, %d model answers for %d commands): %s %s" % (
+            len(res4), len(mblocks), len(lines4), err[-300:], merr[-300:]), {"stderr": err[-2000:], "coq": merr[-2000:]}, False)
+        return
+    nrej = nraise = 0
+    for (pp, itmax, msub, ti, te, verd), line, mb in zip(vcases, res4, mblocks):
+        t = line.split()
+        key = "verdicts:%d:%d:%d:%s:%s:%s" % (pp, itmax, msub, ti, te, "".join(map(str, verd[:64])))
+        mb = mb.split("\n     : ")[0].replace("%Z", "").replace("%nat", "")
+        mev = [(Fr(int(a), int(b)), Fr(int(cc), int(d)), int(n), acc == "true") for a, b, cc, d, n, acc in
+               re.findall(r"\(\(?(-?\d+)\)?,\s*(\d+),\s*\(\(?(-?\d+)\)?,\s*(\d+)\),\s*(\d+),\s*(true|false)\)", mb)]
+        mstatus = "done" if re.search(r",\s*true\)\s*$", mb.strip()) else "raise"
+        if t[0] != "V" or t[1] == "exhausted":
+            c.count(1, key, False)
+            continue
+        rev = [(Fr(float.fromhex(t[i])), Fr(float.fromhex(t[i + 1])), int(t[i + 2]), t[i + 3] == "1") for i in range(2, len(t), 4)]
+        nrej += any(not e[3] for e in rev)
+        nraise += t[1] == "raise"
+        c.count(1, key, any(not e[3] for e in rev))
+        if (rev != mev or t[1] != mstatus) and len(c.violations) < 6:
+            c.report(key, "GenericSolver::execute around a study whose convergence test answers the scripted verdicts %s... (prediction policy %d, iterMax=%d, mSubSteps=%d, "
+                     "from t=%s to %s): calls of iterate (t, dt, iterations, accepted) = %s, status %s; the model of the control flow of iterate/execute (C49Model.v "
+                     "execute_model; theorem C49_iterate_accepts_only_converged) gives %s, status %s" % (
+                         "".join(map(str, verd[:40])), pp, itmax, msub, ti, te, [(float(a), float(b), n, acc) for a, b, n, acc in rev], t[1],
+                         [(float(a), float(b), n, acc) for a, b, n, acc in mev], mstatus),
+                     {"driver_command": "VERD %d %d %d %s %s %d %s" % (pp, itmax, msub, hexf(ti), hexf(te), len(verd), " ".join(map(str, verd))), "driver_answer": line}, True)
     c.coverage["rule"] = (
-        "seeded (VERIF_SEED). (1) %d scripted sequences (4-9 iterations, dimension 1-3, 3-6 for Anderson; dyadic rationals k/8, also scaled by 2^-18..2^-56 so that the "
-        "guards `> eps` fall on both sides; kinds random / repeated inputs / collinear residuals / arithmetic progressions) through the real %s, every output compared with "
-        "the model on Q (tolerance 1e-9 relative to the magnitudes, 1e-7 for Anderson); accelerated outputs (model output differs from the input u1): %r; %d sequences cut "
-        "at a singular Gram matrix. non-trivial = at least one iteration really accelerated. (2) %d closed-loop runs of all 13 real classes on scalar affine maps "
-        "(exactness where a theorem claims it) and at a fixed point. (3) %d problems x %d option sets (13 algorithms + none, 6 prediction policies, 5 stiffness types, "
-        "4 rounding modes) through the real GenericSolver, %d pairs of converged runs compared with the bound 2 sqrt(n) seps/m + 2 eeps (search only)" % (
-            len(cases), ", ".join(MODELLED), accel, nundef, len(lines2), nprob, nconf, npairs))
-    c.coverage["traces_validated_against_impl"] = len(cases)
-    # ================================================================ (4) theorems
-    r = c.coq(["C49Model.v", "C49Spec.v", "C49Proofs.v", "Properties_C49.v"], timeout=900)
-    if not r.ok:
-        c.coq_failures(r)
+        "seeded (VERIF_SEED). (1) %d scripted sequences (4-9 iterations, dimension 1-3, 3-6 for full-rank Anderson; dyadic rationals k/8, also scaled by 2^-18..2^-56 so "
+        "that the guards `> eps` fall on both sides; kinds random / repeated inputs / collinear residuals or corrections / arithmetic progressions / several resolutions in a "
+        "row (state kept, iteration numbers restarting at 1) / %d Anderson sequences with linearly dependent stored fields (rank-deficient path of GSFactorD, data chosen so "
+        "that the floating-point Gram-Schmidt is exact)) through the real %s, every output compared with the model on Q (tolerance 1e-9 relative to the magnitudes, 1e-7 for "
+        "Anderson; full-rank Anderson sequences against both the Gram-Schmidt model and the C^-1 1 model); accelerated outputs (model output differs from the input u1): %r; "
+        "%d sequences cut where the weights are undefined, %d dropped as near ties of the 0.99 branch test. non-trivial = at least one iteration really accelerated. "
+        "(2) %d closed-loop runs of all 13 real classes on scalar affine maps (exactness where a theorem claims it) and at a fixed point. (3) %d problems x %d option sets "
+        "(13 algorithms + none, 6 prediction policies, 5 stiffness types, 4 rounding modes, iterMax 200 or 5/8) + %d strongly non-linear problems with constant stiffness and "
+        "iterMax 2..6 through the real GenericSolver: no step accepted on a `not converged` verdict; %d pairs of converged runs compared with the bound 2 sqrt(n) seps/m + "
+        "2 eeps (search only); %d converged runs used sub-stepping, %d had a small iterMax. (4) %d scripted-verdict runs of the real GenericSolver::execute against the "
+        "control-flow model (%d with a rejected resolution, %d ending in `maximum number of sub stepping`)" % (
+            len(cases), ndrop, ", ".join(MODELLED), accel, nundef, nties, len(lines2), nprob, nconf, c.pick(2, 6), npairs, nsub, nsmall, len(lines4), nrej, nraise))
+    c.coverage["traces_validated_against_impl"] = len(cases) + len(lines4)
 
 
 guarded_main("C49", main)
